@@ -145,7 +145,7 @@ _pool = {}
 
 
 def pool(rng, quick):
-    """kekulised corpus + handmade molecules as Raw, small enough for many reactions per second."""
+    """corpus + handmade molecules (aromatic form, as parsed) as Raw, small enough for many reactions per second."""
     key = 'q' if quick else 't'
     if key not in _pool:
         import random
@@ -157,7 +157,7 @@ def pool(rng, quick):
             if len(m) > 28:
                 continue
             try:
-                m.kekule()
+                m.thiele()     # aromaticity normalised: canonical strings are compared only in that form (C01)
             except Exception:
                 pass
             raws.append(Raw.of(m))
@@ -229,6 +229,7 @@ def gen_reaction(rng, raws):
     if flavour == 'clash_z' and P.atoms:
         n = rng.choice(sorted(P.atoms))
         P.atoms[n][0] = 7 if P.atoms[n][0] != 7 else 8
+        P.atoms[n][1] = None
     if flavour == 'clash_iso' and P.atoms:
         n = rng.choice(sorted(P.atoms))
         z = P.atoms[n][0]
@@ -385,8 +386,12 @@ def correspond(ctx):
         ctx.dist('rxn:roles=%d/%d/%d' % tuple(min(len(x), 3) for x in mols))
         ctx.dist('rxn:' + (real if isinstance(real, str) else 'ok'))
     _state['cases'] = cases
+    s_fmt, s_read, s_tok = Stream(ctx, 'fmt'), Stream(ctx, 'read'), Stream(ctx, 'tokens')
+    format_and_read(ctx, rng, raws, cases, s_fmt, s_read, programs)
+    cgr_tokens(ctx, rng, s_tok, programs)
+    renumbering(ctx, rng, cases)
     disagreements = []
-    for s, primary in ((s_comp, True), (s_rxn, True), (s_exact, False)):
+    for s, primary in ((s_comp, True), (s_rxn, True), (s_fmt, True), (s_read, True), (s_tok, True), (s_exact, False)):
         bad = s.run()
         if bad and primary:
             ctx.broke('correspondence', s.name, json.dumps([{'request': b[0][:3000], 'real': b[1][:1500], 'model': b[2][:1500]}
@@ -400,6 +405,355 @@ def correspond(ctx):
     _state['disagreements'] = disagreements
     ctx.cov['programs'] = len(programs)
 
+
+
+# ------------------------------------------------------------------------------------------------
+# reaction signature / reading back
+# ------------------------------------------------------------------------------------------------
+
+SPECS = ('', '', '!c', '!x', 'm', 'h', '!s', 'A', '!z!b', 'm!c', '!x!c', 'am')
+FRAGS = ['C', 'O', 'N', 'CC', 'CO', 'CN', '[Na+]', '[Cl-]', '[K+]', '[OH-]', 'c1ccccc1', 'C=O', 'C#N', 'OO', 'CCC', 'S',
+         'Cl', 'Br', 'CS', 'NN', 'CCO', 'c1ccncc1', '[NH4+]', 'FC', 'P']
+
+
+def cps(text):
+    return ' '.join(str(ord(c)) for c in text)
+
+
+def sig_of(m, spec):
+    """what ReactionContainer.__format__ takes from a molecule"""
+    s, o = m.__format__(spec, _return_order=True)
+    return s, m.connected_components_count, [bool(m.atom(n).is_radical) for n in o]
+
+
+def fmt_request(rx, spec):
+    parts = ['fmt', str(int('!c' in spec)), str(int('!x' in spec)), str(len(rx.reactants)), str(len(rx.reagents)),
+             str(len(rx.products))]
+    ok = True
+    for m in rx.molecules():
+        s, nc, rad = sig_of(m, spec)
+        ok = ok and (s.count('.') + 1 == nc)
+        parts.append(f'{len(s)} {cps(s)} {nc} {len(rad)} ' + ' '.join(str(int(r)) for r in rad))
+    return norm(' '.join(parts)), ok
+
+
+_sigcache = {}
+
+
+def mol_skeleton(m):
+    """radical / hydrogen independent identity of a molecule: heavy-atom multiset and number of components"""
+    return (tuple(sorted(a.atomic_number for _, a in m.atoms())), m.connected_components_count)
+
+
+def str_skeleton(text):
+    from chython import smiles
+    if text not in _sigcache:
+        try:
+            _sigcache[text] = mol_skeleton(smiles(text))
+        except Exception as e:
+            _sigcache[text] = 'unparsable:' + type(e).__name__
+    return _sigcache[text]
+
+
+def read_real(text):
+    from chython import smiles, ReactionContainer
+    try:
+        r = smiles(text)
+    except Exception as e:
+        return 'err ' + type(e).__name__
+    if not isinstance(r, ReactionContainer):
+        return 'mol'
+    return repr([[mol_skeleton(m) for m in role] for role in (r.reactants, r.reagents, r.products)])
+
+
+def read_model(line):
+    """driver answer -> same rendering as read_real (fragments re-parsed by the real molecule parser)"""
+    if not line.startswith('ok R'):
+        return line
+    xs = line.split()
+    i, roles = 1, []
+    for tag in ('R', 'A', 'P'):
+        assert xs[i] == tag, line
+        k = int(xs[i + 1])
+        i += 2
+        role = []
+        for _ in range(k):
+            n = int(xs[i])
+            role.append(''.join(chr(int(c)) for c in xs[i + 1:i + 1 + n]))
+            i += 1 + n
+        roles.append(role)
+    return repr([[str_skeleton(t) for t in role] for role in roles])
+
+
+def gen_read_text(rng):
+    """reaction text with a (possibly malformed) CXSMILES fragment block; fragments have distinct heavy-atom formulas"""
+    frs = rng.sample(FRAGS, len(FRAGS))
+    counts = [rng.choice((0, 1, 1, 2, 2, 3, 4)) for _ in range(3)]
+    roles, k = [], 0
+    for c in counts:
+        roles.append(frs[k:k + c])
+        k += c
+    mc = k
+    flavour = rng.choice(('writer', 'writer', 'writer', 'anygroups', 'anygroups', 'cross', 'range', 'collision', 'nocx',
+                          'dots', 'arrows', 'junk', 'unsorted'))
+    groups = []
+    if flavour in ('writer', 'dots', 'junk', 'unsorted'):
+        i = 0
+        for c in counts:
+            end = i + c
+            while i < end:
+                size = rng.choice((1, 1, 2, 2, 3))
+                if size > 1 and i + size <= end:
+                    groups.append(list(range(i, i + size)))
+                i += size
+    elif flavour == 'anygroups' and mc:
+        pool_ = list(range(mc))
+        rng.shuffle(pool_)
+        while len(pool_) >= 2 and rng.random() < 0.7:
+            size = rng.choice((2, 2, 3))
+            g, pool_ = pool_[:size], pool_[size:]
+            if len(g) >= 2:
+                groups.append(sorted(g))
+    elif flavour == 'cross' and mc >= 2:
+        groups.append(sorted(rng.sample(range(mc), 2)))
+        if mc >= 4:
+            rest = [x for x in range(mc) if x not in groups[0]]
+            groups.append(sorted(rng.sample(rest, 2)))
+    elif flavour == 'range':
+        groups.append([rng.randrange(mc + 1), mc + rng.randint(0, 3)])
+        if mc >= 2 and rng.random() < 0.5:
+            groups.insert(0, [0, 1])
+    elif flavour == 'collision' and mc >= 2:
+        a, b = rng.sample(range(mc), 2)
+        groups += [[a, b], [b, (b + 1) % mc] if mc > 2 else [a, b]]
+    if flavour == 'unsorted':
+        groups = [rng.sample(g, len(g)) for g in groups]
+        rng.shuffle(groups)
+    smi = '>'.join('.'.join(r) for r in roles)
+    if flavour == 'dots' and mc:
+        # empty pieces are ignored by the reader but shift nothing (indices count non-empty pieces)
+        smi = smi.replace('.', rng.choice(('..', '.')), 1)
+        if rng.random() < 0.5:
+            smi = '.' + smi if not smi.startswith('>') else smi
+    if flavour == 'arrows':
+        smi = rng.choice((smi.replace('>', '', 1), smi + '>', smi.replace('>', '>>', 1)))
+    f = 'f:' + ','.join('.'.join(('0' * rng.choice((0, 0, 0, 1))) + str(x) for x in g) for g in groups) if groups else ''
+    if flavour == 'nocx' or not f:
+        cx = rng.choice(('', '', ' |f:|', ' |f:1|', ' ||', ' |', ' |f:0.|'))
+    elif flavour == 'junk':
+        cx = ' ' + rng.choice(('|%s|', '|$;;$,%s|', '|%s,x|', '|ff:%s|', '|%s,,1.2|', '|c:1,%s|', '|f:9,%s|', '|%s', '%s|',
+                               '|%s,2|', '|%s.|', '|%s,7.|')) % f
+    else:
+        cx = ' |%s|' % f
+    return smi + cx, flavour
+
+
+def format_and_read(ctx, rng, raws, cases, s_fmt, s_read, programs):
+    from chython import ReactionContainer, smiles
+    n_fmt = 250 if ctx.quick else 2500
+    small = [x for x in raws if len(x.atoms) <= 14]
+    assumption_breaks = 0
+    for i in range(n_fmt):
+        # reactions of chemically untouched molecules (so that every string can be read back) + salts + radical ties
+        roles = random_roles(rng, small)
+        if not any(roles):
+            continue
+        mols = [[build(x, rng) for x in role] for role in roles]
+        rx = ReactionContainer(mols[0], mols[2], mols[1])
+        for spec in rng.sample(SPECS, 3):
+            try:
+                req, ok = fmt_request(rx, spec)
+                real = 'ok ' + cps(format(rx, spec))
+            except Exception as e:
+                ctx.dist('fmt:real-raises:' + type(e).__name__)
+                continue
+            assumption_breaks += not ok
+            s_fmt.add(req, real, {'fmt_case': i, 'spec': spec})
+            ctx.dist('fmt:spec=' + (spec or "''"))
+        programs.update(('ReactionContainer.__format__',))
+        ctx.dist('fmt:roles=%d/%d/%d' % tuple(len(x) for x in mols))
+        # relational (real code only): permutation inside roles, write -> read
+        res = oracle_perm(mols) or oracle_roundtrip(mols)
+        ctx.count(('relational', i, 'perm+roundtrip'))
+        if res:
+            ctx.fail(res[0], res[1], {'kind': 'roles', 'roles': [[raw_json(x) for x in role] for role in roles]})
+        # what the writer wrote is read by the model of the reader as well
+        text = format(rx)
+        s_read.add('read ' + cps(text), read_real(text), {'text': text, 'flavour': 'written'})
+        if i < 2:
+            ctx.sample({'stream': 'fmt/read', 'text': text})
+    if assumption_breaks:
+        ctx.broke('relational', 'signature-dots-vs-components',
+                  f'{assumption_breaks} molecules whose signature has a number of dots different from components - 1')
+    n_read = 1500 if ctx.quick else 20000
+    for i in range(n_read):
+        text, flavour = gen_read_text(rng)
+        s_read.add('read ' + cps(text), read_real(text), {'text': text, 'flavour': flavour})
+        ctx.dist('read:' + flavour)
+        if i < 2:
+            ctx.sample({'stream': 'read', 'text': text, 'real': read_real(text)[:200]})
+    programs.update(('smiles() reaction branch', 're.search(cx_fragments)'))
+    # the model answers with strings; render them like the real side
+    orig_run = s_read.run
+
+    def run():
+        ctx_ = s_read.ctx
+        if not s_read.reqs or not ctx_.build_ok:
+            return []
+        got = core.run_driver('C15', s_read.reqs)
+        bad = []
+        for req, e, g, meta in zip(s_read.reqs, s_read.exp, got, s_read.meta):
+            g2 = norm(read_model(norm(g)))
+            ctx_.dist('read:outcome:' + (e.split()[0] if e.startswith(('err', 'mol')) else 'roles'))
+            if norm(e) != g2:
+                bad.append((req, e, g2, meta))
+        ctx_.cov['disagreements_checked'] += len(s_read.reqs)
+        return bad
+    s_read.run = run
+
+
+def mol_key(m):
+    """a molecule as the multiset of the signatures of its connected components (the order of the components inside the
+    signature of a multi-component molecule is a tie-break of the molecule writer, C01 — not compared here)"""
+    m = m.copy()
+    try:
+        m.thiele()      # signatures are canonical only once aromaticity is normalised (C01)
+    except Exception:
+        pass
+    if m.connected_components_count > 1:
+        return tuple(sorted(str(c) for c in m.split()))
+    return (str(m),)
+
+
+def cgr_tokens(ctx, rng, s_tok, programs):
+    """CGRSmiles._format_atom / _format_bond on single-atom / single-bond CGRs: exhaustive bond grid, atom grid"""
+    from chython import CGRContainer
+    from chython.containers.bonds import DynamicBond
+    from chython.periodictable import DynamicElement, Element
+    orders = (None, 1, 2, 3, 4, 8)
+    for o in orders:
+        for p in orders:
+            b = object.__new__(DynamicBond)
+            b._order, b._p_order = o, p
+            h = CGRContainer()
+            h._atoms = {1: None, 2: None}
+            h._bonds = {1: {2: b}, 2: {1: b}}
+            s_tok.add(f'btok {_o(o)} {_o(p)}', outcome(lambda: 'ok ' + h._format_bond(1, 2, {})), {'bond': (o, p)})
+    zs = list(range(1, 119))
+    grid = []
+    for z in zs:                       # every element, plain / isotope / a few marks
+        mdl = Element.from_atomic_number(z).mdl_isotope.fget(None)
+        grid += [(z, 0, 0, 0, False, False), (z, mdl, 0, 0, False, False), (z, 0, 1, 1, False, False),
+                 (z, 0, 0, -1, False, True), (z, mdl, 2, 0, True, True)]
+    charges = range(-4, 5)
+    for z in ((6, 7, 8, 11, 17, 26) if ctx.quick else zs[::3]):
+        for c in charges:
+            for pc in charges:
+                for r, pr in ((False, False), (True, False), (False, True), (True, True)):
+                    if ctx.quick and r != pr and (c, pc) != (0, 0) and rng.random() < 0.6:
+                        continue
+                    grid.append((z, 0, c, pc, r, pr))
+    grid += [(6, 0, 5, 0, False, False), (6, 0, 0, -5, False, False), (7, 15, 4, -4, True, False)]
+    for z, iso, c, pc, r, pr in grid:
+        a = object.__new__(DynamicElement.from_atomic_number(z))
+        a._isotope, a._charge, a._p_charge, a._is_radical, a._p_is_radical = iso or None, c, pc, r, pr
+        h = CGRContainer()
+        h._atoms = {1: a}
+        h._bonds = {1: {}}
+        s_tok.add(f'atok {z} {iso} {c} {pc} {int(r)} {int(pr)}', outcome(lambda: 'ok ' + h._format_atom(1, {})), {'atom': (z, iso, c, pc, r, pr)})
+    ctx.dist('tokens:bond-grid-exhaustive', 36)
+    ctx.dist('tokens:atom-grid', len(grid))
+    programs.update(('CGRSmiles._format_atom', 'CGRSmiles._format_bond'))
+
+
+def cgr_string_key(h):
+    # components of a multi-component signature are ordered by a tie-break of the writer (C01): compare as a multiset
+    return sorted(str(h).split('.'))
+
+
+def oracle_renumber(R, P, f, rng=None):
+    """str(CGR) must not depend on a consistent renumbering of both sides (real code only)."""
+    try:
+        h1 = build(R, rng, labels=False) ^ build(P, rng, labels=False)
+    except ValueError:
+        return None
+    h2 = build(R.renamed(f), rng, labels=False) ^ build(P.renamed(f), rng, labels=False)
+    try:
+        k1, k2 = cgr_string_key(h1), cgr_string_key(h2)
+    except Exception as e:
+        return 'C15/cgr-string/raises/' + type(e).__name__, f'str(CGR) raised {type(e).__name__}: {e}'
+    if k1 != k2:
+        # the same tie of the canonical numbering on a single side is C01's recorded gap, not a CGR matter
+        for side in (R, P):
+            if side.atoms:
+                try:
+                    a, b = build(side), build(side.renamed(f))
+                    if sorted(str(a).split('.')) != sorted(str(b).split('.')):
+                        return 'inherited', 'molecule-level signature already numbering dependent (C01)'
+                except Exception:
+                    pass
+        return 'C15/cgr-string/renumbering', f'{".".join(k1)!r} vs renumbered {".".join(k2)!r}'
+    if sorted(f[n] for n in h1.center_atoms) != sorted(h2.center_atoms):
+        return 'C15/centre/renumbering', f'centre {sorted(h1.center_atoms)} maps to {sorted(h2.center_atoms)} under {f}'
+    return None
+
+
+def renumbering(ctx, rng, cases):
+    for i, g in enumerate(cases):
+        ids = sorted(set(g['R'].atoms) | set(g['P'].atoms))
+        if not ids:
+            continue
+        f = dict(zip(ids, rng.sample(range(1, 3 * len(ids) + 5), len(ids))))
+        res = oracle_renumber(g['R'], g['P'], f, rng)
+        ctx.count(('relational', 'renumber', i))
+        if res and res[0] == 'inherited':
+            ctx.dist('renumber:inherited-C01-tie')
+        elif res:
+            ctx.fail(res[0], res[1], {'kind': 'renumber', 'R': raw_json(g['R']), 'P': raw_json(g['P']),
+                                      'map': {str(k): v for k, v in f.items()}})
+        else:
+            ctx.dist('renumber:invariant')
+
+
+def role_strings(mols):
+    return [sorted(mol_key(m) for m in role) for role in mols]
+
+
+def oracle_perm(mols, limit=6):
+    """format(reaction) must not depend on the order of molecules inside a role (real code only)"""
+    from chython import ReactionContainer
+    import itertools as it
+    base = None
+    perms = [list(it.islice(it.permutations(role), limit)) or [()] for role in mols]
+    for pr in perms[0]:
+        for pa in perms[1]:
+            for pp in perms[2]:
+                rx = ReactionContainer([m.copy() for m in pr], [m.copy() for m in pp], [m.copy() for m in pa])
+                s = format(rx)
+                if base is None:
+                    base = s
+                elif s != base:
+                    return 'C15/format/role-order', f'signature depends on the order inside a role: {base!r} vs {s!r}'
+    return None
+
+
+def oracle_roundtrip(mols):
+    """smiles(format(reaction)) restores the role partition and the molecules (real code only)"""
+    from chython import ReactionContainer, smiles
+    rx = ReactionContainer(mols[0], mols[2], mols[1])
+    text = format(rx)
+    try:
+        back = smiles(text)
+    except Exception as e:
+        return 'C15/read-write/raises/' + type(e).__name__, f'{text!r} cannot be read back: {type(e).__name__}: {e}'
+    if not isinstance(back, ReactionContainer):
+        return 'C15/read-write/not-a-reaction', f'{text!r} read back as {type(back).__name__}'
+    want = role_strings([rx.reactants, rx.reagents, rx.products])
+    got = role_strings([back.reactants, back.reagents, back.products])
+    if want != got:
+        which = [n for n, a, b in zip(('reactants', 'reagents', 'products'), want, got) if a != b]
+        return 'C15/read-write/roles', f'{text!r} read back with different {"/".join(which)}: {got} (written from {want})'
+    return None
 
 # ------------------------------------------------------------------------------------------------
 # property-level oracle on the real code (never consults the Lean model)
@@ -467,16 +821,24 @@ def raw_from_json(d):
 
 
 def search(ctx):
-    """Re-run the property oracle on the generated cases (disagreeing ones first) and on fresh ones."""
+    """Property-level oracles on the real code only: the disagreeing cases first, then fresh reactions."""
     import time
     from ..gen import pyx2py
     pyx2py.install()
     t_end = time.time() + (60 if ctx.quick else 600)
     rng = ctx.rng
     raws = pool(rng, ctx.quick)
+    small = [x for x in raws if len(x.atoms) <= 14]
     first = [c for c in (_state.get('cases') or [])]
     idx = [b[3]['case'] for _, b in _state.get('disagreements', []) if 'case' in b[3]]
     ordered = [first[i] for i in idx if i < len(first)] + first
+    # texts on which the reader model and the reader disagreed: is the written role partition restored?
+    for name, b in _state.get('disagreements', []):
+        if name == 'read' and b[3].get('flavour') in ('written', 'writer'):
+            res = oracle_read_text(b[3]['text'])
+            if res:
+                ctx.fail(res[0], res[1], {'kind': 'read-partition', 'text': b[3]['text']})
+                return
     n = 0
     while time.time() < t_end:
         g = ordered[n] if n < len(ordered) else gen_reaction(rng, raws)
@@ -485,9 +847,100 @@ def search(ctx):
         if res:
             ctx.fail(res[0], res[1], {'kind': 'compose', 'R': raw_json(g['R']), 'P': raw_json(g['P'])})
             return
-        if n > len(ordered) + (3000 if ctx.quick else 30000):
+        ids = sorted(set(g['R'].atoms) | set(g['P'].atoms))
+        if ids:
+            f = dict(zip(ids, rng.sample(range(1, 3 * len(ids) + 5), len(ids))))
+            res = oracle_renumber(g['R'], g['P'], f, rng)
+            if res and res[0] != 'inherited':
+                ctx.fail(res[0], res[1], {'kind': 'renumber', 'R': raw_json(g['R']), 'P': raw_json(g['P']),
+                                          'map': {str(k): v for k, v in f.items()}})
+                return
+        # role lists: order-free signature and write -> read
+        roles = random_roles(rng, small)
+        if any(roles):
+            mols = [[build(x, rng) for x in role] for role in roles]
+            res = oracle_perm(mols) or oracle_roundtrip(mols)
+            if res:
+                ctx.fail(res[0], res[1], {'kind': 'roles', 'roles': [[raw_json(x) for x in role] for role in roles]})
+                return
+        text, flavour = gen_read_text(rng)
+        if flavour == 'writer':
+            res = oracle_read_text(text)
+            if res:
+                ctx.fail(res[0], res[1], {'kind': 'read-partition', 'text': text})
+                return
+        if n > len(ordered) + (2000 if ctx.quick else 20000):
             break
-    ctx.notes.append(f'search: oracle evaluated on {n} reactions, no failing input')
+    ctx.notes.append(f'search: property oracles evaluated on {n} reactions, no failing input')
+
+
+def random_roles(rng, small):
+    roles, nxt = [], 1
+    for _ in range(3):
+        role = []
+        for _ in range(rng.choice((0, 1, 1, 2, 2, 3))):
+            m = Raw()
+            for _ in range(rng.choice((1, 1, 1, 2, 3))):
+                c = rng.choice(small)
+                m = m.merged(c.renamed({n: nxt + j for j, n in enumerate(c.atoms)}))
+                nxt += len(c.atoms)
+            if rng.random() < 0.15 and m.atoms:
+                m.atoms[rng.choice(sorted(m.atoms))][3] = True
+            role.append(m)
+        roles.append(role)
+    if rng.random() < 0.15:
+        z = rng.choice((11, 19, 3))
+        k = rng.randrange(3)
+        roles[k] = roles[k][:1] + [Raw({nxt: [z, None, 0, True]}), Raw({nxt + 1: [z, None, 0, False]}),
+                                    Raw({nxt + 2: [z, None, 0, rng.random() < 0.5]})]
+        rng.shuffle(roles[k])
+    return roles
+
+
+def oracle_read_text(text):
+    """A text in the writer's layout (consecutive fragment groups inside one role): the reader must return exactly the
+    partition the text denotes. Ground truth is computed from the text itself, not from any model."""
+    from chython import smiles
+    toks = text.split()
+    smi = toks[0]
+    groups = []
+    if len(toks) > 1 and 'f:' in toks[1]:
+        body = toks[1].strip('|').split('f:')[1]
+        for g in body.split(','):
+            try:
+                groups.append(sorted(int(x) for x in g.split('.')))
+            except ValueError:
+                return None
+    parts = smi.split('>')
+    if len(parts) != 3:
+        return None
+    frags = [[x for x in p.split('.') if x] for p in parts]
+    expected, i = [], 0
+    flat_groups = {g[0]: g for g in groups}
+    member = {x for g in groups for x in g}
+    for role in frags:
+        out = []
+        for j, fr in enumerate(role):
+            k = i + j
+            if k in flat_groups:
+                g = flat_groups[k]
+                if not all(i <= x < i + len(role) for x in g):
+                    return None        # not the writer's layout
+                out.append('.'.join(role[x - i] for x in g))
+            elif k not in member:
+                out.append(fr)
+        expected.append([str_skeleton(t) for t in out])
+        i += len(role)
+    if not any(expected):
+        return None
+    try:
+        r = smiles(text)
+    except Exception as e:
+        return 'C15/read/raises/' + type(e).__name__, f'smiles({text!r}) raised {type(e).__name__}: {e}'
+    got = [[mol_skeleton(m) for m in role] for role in (r.reactants, r.reagents, r.products)]
+    if got != expected:
+        return 'C15/read/partition', f'smiles({text!r}) has role skeletons {got}, the text denotes {expected}'
+    return None
 
 
 def probe(inp):
@@ -504,4 +957,29 @@ def probe(inp):
         except Exception as e:
             return True, f'str(~reaction) raised {type(e).__name__}: {e}'
         return False, f'str(~reaction) = {s}'
+    if kind == 'renumber':
+        res = oracle_renumber(raw_from_json(inp['R']), raw_from_json(inp['P']), {int(k): v for k, v in inp['map'].items()})
+        if res and res[0] != 'inherited':
+            return True, f'{res[0]}: {res[1]}'
+        return False, 'CGR signature and centre are invariant under this renumbering'
+    if kind == 'read-partition':
+        res = oracle_read_text(inp['text'])
+        return (True, f'{res[0]}: {res[1]}') if res else (False, 'the reader returns the partition the text denotes')
+    if kind == 'roles':
+        mols = [[build(raw_from_json(x)) for x in role] for role in inp['roles']]
+        res = oracle_perm(mols) or oracle_roundtrip(mols)
+        return (True, f'{res[0]}: {res[1]}') if res else (False, 'signature is order-free and reads back to the same roles')
+    if kind == 'read-text':
+        from chython import smiles
+        r = smiles(inp['text'])
+        got = [[str(m) for m in role] for role in (r.reactants, r.reagents, r.products)]
+        return got != inp['expected'], f'smiles({inp["text"]!r}) has roles {got}, expected {inp["expected"]}'
+    if kind == 'role-order':
+        from chython import smiles, ReactionContainer
+        ms = [smiles(x) for x in inp['molecules']]
+        for i, m in enumerate(ms):
+            m.remap({n: n + 100 * i for n in list(m._atoms)})
+        a = format(ReactionContainer(ms, [], []))
+        b = format(ReactionContainer(ms[::-1], [], []))
+        return a != b, f'{a!r} vs reversed role order {b!r}'
     raise ValueError(f'unknown probe kind {kind}')
